@@ -415,6 +415,55 @@ def encode_compressed(tree, mand_labels, layout: str = 'none'):
     return '( ' + ' '.join(labels) + (' ' if labels else '') + ') ' + ''.join(letters)
 
 
+def tree_size(tree) -> int:
+    return 1 + sum(tree_size(s) for s in tree[1])
+
+
+def encode_compressed_marks(tree, mand_labels, marks, ref: str = 'latest'):
+    """compressed proof with Z exactly after the steps whose pre-order node index is in `marks`. A node that is
+    not itself to be marked and whose subtree equals one marked earlier is replaced by a reference to that mark
+    (`ref`: 'latest' or 'earliest' mark of an equal subtree); a node in `marks` is always written out, so equal
+    expressions can be marked twice. Every such proof is valid whenever the uncompressed one is."""
+    labels = []
+
+    def number_of(label):
+        if label in mand_labels:
+            return mand_labels.index(label) + 1
+        if label not in labels:
+            labels.append(label)
+        return len(mand_labels) + labels.index(label) + 1
+
+    for lab in rpn(tree):
+        number_of(lab)
+    marked = {}        # repr(subtree) -> list of mark numbers
+    nmarks = [0]
+    letters = []
+    counter = [0]
+
+    def skip(t):
+        counter[0] += tree_size(t)
+
+    def emit(t):
+        k = counter[0]
+        key = repr(t)
+        if k not in marks and key in marked:
+            m = marked[key][-1] if ref == 'latest' else marked[key][0]
+            letters.append(encode_number(len(mand_labels) + len(labels) + m))
+            skip(t)
+            return
+        counter[0] += 1
+        for s in t[1]:
+            emit(s)
+        letters.append(encode_number(number_of(t[0])))
+        if k in marks:
+            nmarks[0] += 1
+            marked.setdefault(key, []).append(nmarks[0])
+            letters.append('Z')
+
+    emit(tree)
+    return '( ' + ' '.join(labels) + (' ' if labels else '') + ') ' + ''.join(letters)
+
+
 # ------------------------------------------------------------------------------------------------
 # reading databases in the repository's dialect (own tokenizer; used to validate E7 on the shipped files)
 # ------------------------------------------------------------------------------------------------
